@@ -2,7 +2,10 @@ import KoordVerif.Model.C19
 import KoordVerif.Proofs.C19Numa
 import KoordVerif.Proofs.C19Cpuset
 import KoordVerif.Proofs.C19Dev
+import KoordVerif.Proofs.C19ExtDevVF
 import KoordVerif.Proofs.C19Rsv
+import KoordVerif.Proofs.C19ExtRsvCache
+import KoordVerif.Proofs.C19ExtEvents
 /-
 C19 — scheduler allocation state survives a restart unchanged.  Property theorems.
 
@@ -338,6 +341,42 @@ theorem excl_mark_order_independent_partial (topo : List Nat) (l₁ l₂ : List 
     (by obtain ⟨a, ha, hc⟩ := hheld; exact ⟨a, hp.mem_iff.1 ha, hc⟩)
     (fun a ha => hagree a (hp.mem_iff.2 ha))]
 
+/-! ### event shapes on the rebuild side (proofs: Proofs/C19ExtEvents.lean)
+
+A restarting / second scheduler did not run Reserve itself; the first EFFECTIVE delivery of a bound pod can be an
+update event whose old and new objects carry the same annotations (add(unbound, annotated) then the bind
+update; or an add dropped because the node's topology was not known yet, then a no-change resync).  The handler
+must record from the NEW object whatever the OLD one was. -/
+
+/-- for a bound new object `podEventHandler.updatePod` never looks at the old object. -/
+theorem update_records_regardless_of_old (topo : List Nat) (s : St) (old₁ old₂ : Option Obj) (o : Obj)
+    (ha : o.assigned = true) : onUpdate topo s old₁ o = onUpdate topo s old₂ o :=
+  Ev.update_records_regardless_of_old topo s old₁ old₂ o ha
+
+/-- …it records (`update` = release + add) the allocation restored from the new object's annotations. -/
+theorem update_records_restored (topo : List Nat) (s : St) (old : Option Obj) (o : Obj) (a : PodAlloc)
+    (ha : o.assigned = true) (ht : o.term = false)
+    (hr : restore o.uid o.excl (o.annot.getD { text := [], numa := [] }) = some a) :
+    onUpdate topo s old o = update topo s a :=
+  Ev.update_records_restored topo s old o a ha ht hr
+
+/-- delivery shape add(unbound, annotated) → update(unbound → bound, same annotations) rebuilds exactly what
+    the plain add(bound) rebuilds. -/
+theorem unbound_then_bound_eq_add (topo : List Nat) (s : St) (o : Obj) (ha : o.assigned = true) :
+    onUpdate topo (onUpdate topo s none o.unbound) (some o.unbound) o = onUpdate topo s none o :=
+  Ev.unbound_then_bound_eq_add topo s o ha
+
+/-- delivery shape add(bound) before the node's CPU topology is known (dropped by `resourceManager.Update`) →
+    topology arrives → no-change resync update(old = new) rebuilds exactly what the plain add rebuilds. -/
+theorem early_then_resync_eq_add (topo : List Nat) (s : St) (o : Obj) (ha : o.assigned = true) (ht : o.term = false) :
+    onUpdateT true topo (onUpdateT false topo s none o) (some o) o = onUpdate topo s none o :=
+  Ev.early_then_resync_eq_add topo s o ha ht
+
+/-- non-vacuity: the bind update of a pod holding CPU 0 does change an empty ledger. -/
+example : onUpdate [0, 0] St.init (some (Obj.unbound ⟨1, true, false, 0, some ⟨[48], []⟩⟩))
+    ⟨1, true, false, 0, some ⟨[48], []⟩⟩ ≠ St.init := by
+  decide
+
 /-! ## C. the codec: CPU-set text and the persisted record -/
 
 /-- **T1 cpuset_roundtrip**: for every finite CPU set within `[0, 4096]` (as a strictly ascending
@@ -415,7 +454,7 @@ example : restore exA.uid exA.excl (persist exA) = some exA :=
     the harness still exercises all three kinds and keeps the fingerprint). -/
 theorem persistedExcl_eq (kind : Nat) (a : PodAlloc) : persistedExcl kind a = a.excl := rfl
 
-/-! ## D. deviceshare ledger (model and proofs: Model/C19Dev.lean, Proofs/C19Dev.lean) -/
+/-! ## D. deviceshare ledger (model and proofs: Model/C19Dev.lean, Proofs/C19Dev.lean; VF ledger: D-VF below) -/
 
 /-- live = rebuilt for the device cache: after every well-formed history of add / delete /
     same-allocation update events, `deviceUsed`, `deviceFree` and `allocateSet` of a fresh cache fed
@@ -456,6 +495,61 @@ theorem dev_taken_not_free (total : Dev.Tab) (h : List Dev.Ev) (wf : Dev.WellFor
     Dev.usedAt fresh k = Dev.taken (Dev.survivors h) k ∧
     Dev.freeAt fresh k = max 0 (Dev.get total k - Dev.taken (Dev.survivors h) k) :=
   Dev.taken_not_free total h wf k
+
+/-! ### D-VF. the VF ledger `nodeDevice.vfAllocations` (Model/C19DevVF.lean, paired with the device
+    ledger under the same isValid guard; proofs: Proofs/C19ExtDevVF.lean).  `Dev.VWF h` (decidable):
+    every event about a (node, type, pod) key carries the same allocation, and at every point of the
+    history no VF is held by two present allocations. -/
+
+/-- forgetting the VFs, the paired model is the device model above (so D applies to its `.st`). -/
+theorem dev_vf_refines (s : Dev.StV) (h : List Dev.VEv) :
+    (Dev.runV s h).st = Dev.run s.st (h.map Dev.VEv.ev) :=
+  Dev.runV_st s h
+
+/-- live = rebuilt for the VF ledger: same bus ids per (node, type, minor), same `vf` lines. -/
+theorem dev_vf_live_eq_rebuilt (total : Dev.Tab) (h : List Dev.VEv) (wf : Dev.VWF h = true) :
+    let live := Dev.runV (Dev.StV.init total) h
+    let fresh := Dev.buildV total (Dev.vsurvivors h)
+    (∀ k b, Dev.vfHas live.vf k b = Dev.vfHas fresh.vf k b) ∧
+    (∀ un, Dev.vfRender un live.vf = Dev.vfRender un fresh.vf) :=
+  Dev.vf_live_eq_rebuilt total h wf
+
+/-- the rebuilt VF ledger does not depend on the delivery order (distinct (node, type, pod) keys). -/
+theorem dev_vf_order_independent (total : Dev.Tab) {l₁ l₂ : List Dev.VGroup} (hp : l₁.Perm l₂)
+    (hnd : (l₁.map Dev.VGroup.key).Nodup) :
+    (∀ k b, Dev.vfHas (Dev.buildV total l₁).vf k b = Dev.vfHas (Dev.buildV total l₂).vf k b) ∧
+    (∀ un, Dev.vfRender un (Dev.buildV total l₁).vf = Dev.vfRender un (Dev.buildV total l₂).vf) :=
+  Dev.vf_order_independent total hp hnd
+
+/-- a duplicate add is skipped, VF ledger included (any state, any allocation). -/
+theorem dev_vf_dup_add_noop (s : Dev.StV) (v : Dev.VGroup) :
+    Dev.addGroupV (Dev.addGroupV s v) v = Dev.addGroupV s v :=
+  Dev.vf_dup_add_noop s v
+
+/-- a same-allocation update of a surviving allocation leaves the VF ledger unchanged. -/
+theorem dev_vf_same_update_noop (total : Dev.Tab) (h : List Dev.VEv) (v : Dev.VGroup)
+    (wf : Dev.VWF (h ++ [Dev.VEv.upd v]) = true) (wf0 : Dev.VWF h = true) (hv : v ∈ Dev.vsurvivors h) :
+    let s := Dev.runV (Dev.StV.init total) h
+    ∀ k b, Dev.vfHas (Dev.stepV s (.upd v)).vf k b = Dev.vfHas s.vf k b :=
+  Dev.vf_same_update_noop total h v wf wf0 hv
+
+/-- no VF taken before the restart is offered after it: the rebuilt cache records exactly the VFs the
+    survivors stand for, and every bus id of a persisted annotation whose VF-carrying
+    DeviceAllocations have distinct minors (without that: `Dev.vf_taken_dup_minor_counterexample`). -/
+theorem dev_vf_taken_not_free (total : Dev.Tab) (h : List Dev.VEv) (wf : Dev.VWF h = true) :
+    let fresh := Dev.buildV total (Dev.vsurvivors h)
+    (∀ v ∈ Dev.vsurvivors h, ∀ x ∈ v.ents, Dev.vfHas fresh.vf x.1 x.2 = true) ∧
+    (∀ v ∈ Dev.vsurvivors h, v.MinorsDistinct → ∀ x ∈ v.rawEnts, Dev.vfHas fresh.vf x.1 x.2 = true) ∧
+    (∀ k b, Dev.vfHas fresh.vf k b = true → ∃ v ∈ Dev.vsurvivors h, (k, b) ∈ v.ents) :=
+  Dev.vf_taken_not_free total h wf
+
+/-- the disjointness part of `VWF` is needed: the ledger records no owner, so with one VF held by
+    two allocations a delete of one frees the other's VF (live ≠ rebuilt). -/
+theorem dev_vf_shared_remove_counterexample :
+    ¬ (∀ (h : List Dev.VEv), Dev.vfuncOK h = true →
+        ∀ k b, Dev.vfHas (Dev.runV (Dev.StV.init []) h).vf k b
+          = Dev.vfHas (Dev.buildV [] (Dev.vsurvivors h)).vf k b) :=
+  Dev.vf_live_eq_rebuilt_needs_disjoint_counterexample
 
 /-! ## R. reservation ledger (model and proofs: Model/C19Rsv.lean, Proofs/C19Rsv.lean) -/
 
@@ -524,5 +618,72 @@ theorem rsv_early_pod_lost_counterexample :
         (fun i => i.allocated 0)
       = some 0 := by
   decide
+
+/-! ### event shapes on the rebuild side (proofs: Proofs/C19ExtEvents.lean) -/
+
+/-- for a running pod annotated for a reservation that is in the cache, an add / update whose old object is
+    absent, un-annotated, or the same pod annotated for the SAME reservation (its unbound version; the identical
+    object of a resync) always runs `AddAssignedPod(new)`: a same-reservation update is never skipped. -/
+theorem rsv_update_records_regardless_of_old (c : Rsv.Cache) (old : Option Rsv.Pod) (new : Rsv.Pod) (r : Nat) (ri : Rsv.Info)
+    (hterm : new.term = false) (hr : new.rid = some r) (hget : c.get r = some ri)
+    (hold : Rsv.Ev.FirstDeliveryOld old new r) :
+    (Rsv.handlerUpdate c old new).get r = some (Rsv.addAssigned (Rsv.Ev.baseInfo old ri new.pid) new.pid new.q) :=
+  Rsv.Ev.rsv_update_records_regardless_of_old c old new r ri hterm hr hget hold
+
+/-- hence afterwards the pod IS in AssignedPods of its reservation… -/
+theorem rsv_update_assigns (c : Rsv.Cache) (old : Option Rsv.Pod) (new : Rsv.Pod) (r : Nat) (ri : Rsv.Info)
+    (hterm : new.term = false) (hr : new.rid = some r) (hget : c.get r = some ri)
+    (hold : Rsv.Ev.FirstDeliveryOld old new r) :
+    ∃ ri', (Rsv.handlerUpdate c old new).get r = some ri' ∧ new.pid ∈ Rsv.keys ri' :=
+  Rsv.Ev.rsv_update_assigns c old new r ri hterm hr hget hold
+
+/-- …with its masked request allocated on top of what the other pods hold (first delivery, or old carried the
+    same assignment and its record is replaced). -/
+theorem rsv_update_allocates (c : Rsv.Cache) (old : Option Rsv.Pod) (new : Rsv.Pod) (r : Nat) (ri : Rsv.Info)
+    (hterm : new.term = false) (hr : new.rid = some r) (hget : c.get r = some ri)
+    (hold : Rsv.Ev.FirstDeliveryOld old new r)
+    (hfirst : new.pid ∉ Rsv.keys ri ∨ ∃ o, old = some o ∧ o.rid = some r ∧ o.pid = new.pid) :
+    ∃ ri', (Rsv.handlerUpdate c old new).get r = some ri' ∧
+      ri'.pods.lookup new.pid = some new.q ∧
+      ∀ d, ri'.allocated d = (Rsv.Ev.baseInfo old ri new.pid).allocated d + Rsv.masked ri.decl new.q d :=
+  Rsv.Ev.rsv_update_allocates c old new r ri hterm hr hget hold hfirst
+
+/-- non-vacuity: the bind update (old = the unbound version: same pod, same annotation) of the FIRST pod of a
+    reservation allocates its request. -/
+example :
+    ((Rsv.handlerBind (({} : Rsv.Cache).updateReservation 1 1 false [8000, 64, 8])
+        { pid := 1, rid := some 1, q := [1000, 5, -1], term := false }).get 1).map (fun i => i.allocated 0)
+      = some 1000 := by
+  decide
+
+/-! ### R'. the WHOLE reservation cache (map of ReservationInfo + per-node indexes), Proofs/C19ExtRsvCache.lean -/
+
+/-- **rebuilt = live for the whole reservation cache**: for every well-formed history of Reservation add /
+    update events and pod add / update / re-assignment / un-assignment / terminate / delete events over any
+    number of Reservations and nodes, the live cache and the cache a fresh scheduler rebuilds from the
+    survivors (Reservations first, in any order; then the pods, in any order) have the same ReservationInfos
+    (node, allocate-once, declared amounts, Allocated in every dimension, AssignedPods up to order) and the same
+    per-node indexes.  `wfHist` is decidable: a Reservation update keeps its spec, an annotated pod names a
+    Reservation already delivered (the opposite is C19:rsv-early-pod-lost), a terminating update keeps the
+    annotation; each clause has a `…_needs_…_counterexample` in the proofs file. -/
+theorem rsv_cache_rebuilt_eq_live (h : List Rsv.Ev) (wf : Rsv.wfHist h = true) (R : List Rsv.RObj) (P : List Rsv.Pod)
+    (hR : R.Perm (Rsv.survivors h).1) (hP : P.Perm (Rsv.survivors h).2) :
+    Rsv.CacheEq (Rsv.live h) (Rsv.rebuild R P) :=
+  Rsv.cache_rebuilt_eq_live h wf R P hR hP
+
+/-- the same for ANY interleaving of Reservation and pod deliveries in which every pod's Reservation is
+    delivered earlier (`resvFirst`, the exact order hypothesis the code needs). -/
+theorem rsv_cache_rebuilt_eq_live_interleaved (h : List Rsv.Ev) (wf : Rsv.wfHist h = true) (l : List Rsv.Dlv)
+    (hR : (Rsv.resvsOf l).Perm (Rsv.survivors h).1) (hP : (Rsv.podsOf l).Perm (Rsv.survivors h).2)
+    (ord : Rsv.resvFirst l = true) : Rsv.CacheEq (Rsv.live h) (Rsv.rebuildSeq l) :=
+  Rsv.cache_rebuilt_eq_live_interleaved h wf l hR hP ord
+
+/-- the whole rebuilt cache does not depend on the delivery order of Reservations / of pods. -/
+theorem rsv_cache_rebuild_order_independent (h : List Rsv.Ev) (wf : Rsv.wfHist h = true) {R₁ R₂ : List Rsv.RObj}
+    {P₁ P₂ : List Rsv.Pod} (hR₁ : R₁.Perm (Rsv.survivors h).1) (hP₁ : P₁.Perm (Rsv.survivors h).2)
+    (hR₂ : R₂.Perm (Rsv.survivors h).1) (hP₂ : P₂.Perm (Rsv.survivors h).2) :
+    Rsv.CacheEq (Rsv.rebuild R₁ P₁) (Rsv.rebuild R₂ P₂) :=
+  Rsv.cache_rebuild_order_independent_hist h wf hR₁ hP₁ hR₂ hP₂
+
 
 end KoordVerif.C19
